@@ -77,6 +77,45 @@ def is_model_cell(cell: str) -> bool:
     return owner in MODEL_CELL_OWNERS or owner == "?"
 
 
+def _within_reaction_copy(ctx, e) -> bool:
+    if e.fn.short == "Reaction.copy" or any(c[0].short == "Reaction.copy" for c in e.chain):
+        return True
+    # a private helper of Reaction that only Reaction.copy calls
+    if e.fn.cls is not None and e.fn.cls.name == "Reaction" and e.fn.name.startswith("_") and not e.fn.name.startswith("__"):
+        copy_fn = ctx.prog.func("cobra.core.reaction", "Reaction.copy")
+        callers = [f for f in ctx.prog.all_funcs() if any(isinstance(n, ast.Call) and isinstance(n.func, ast.Attribute) and n.func.attr == e.fn.name for n in ast.walk(f.node)) and f is not e.fn]
+        return bool(callers) and all(f is copy_fn for f in callers)
+    return False
+
+
+def _reaction_copy_holds(ctx) -> bool:
+    if not hasattr(ctx, "_reaction_copy_holds"):
+        from . import c12
+
+        class _Probe:
+            prog, eff, inf, flow = ctx.prog, ctx.eff, ctx.inf, ctx.flow
+
+            def __init__(self):
+                self.failed = False
+
+            def bad(self, *a, **k):
+                self.failed = True
+
+            def ok(self, *a, **k):
+                pass
+
+            def note(self, *a, **k):
+                pass
+
+        pr = _Probe()
+        try:
+            c12.check_reaction_copy(pr)
+            ctx._reaction_copy_holds = not pr.failed
+        except Exception:  # noqa: BLE001 - not evaluable: the scope reading stays armed
+            ctx._reaction_copy_holds = False
+    return ctx._reaction_copy_holds
+
+
 def entry_points(ctx) -> List[Tuple[FuncInfo, str]]:
     prog = ctx.prog
     out: List[Tuple[FuncInfo, str]] = []
@@ -149,6 +188,11 @@ def run(ctx) -> None:
                 continue
             if analysis_owned_solver_object(e.fn, e.recv):
                 continue  # a row/column the analysis added itself (literal-prefixed name), inside its own context
+            if e.cell.endswith("._model") and _within_reaction_copy(ctx, e) and _reaction_copy_holds(ctx):
+                # Reaction.copy detaches itself and its species for the deep copy and re-attaches them: the evaluated
+                # clause C12.detach (object graph: every model pointer back where it was) decides that, however the
+                # save / restore is spelled or factored into helpers
+                continue
             reported.setdefault(key, []).append(fn.short)
             origin_eff.setdefault(key, e)
             any_new = True
